@@ -100,7 +100,7 @@ CHECKS = {
         'an infinite limit is the cutoff; index shift, reversal and single-term perturbation laws; complex, non-integer and doubly infinite limits, a clashing or invalid dummy variable and blank fields are errors of the stated classes; author failures are configuration errors; the verdict is the C04 rule on the two sums. '
         'Tie: SumGrader.perform_summation run on exact Fraction summands for all limit pairs in a window in both orders x parities and for infinite limits, compared exactly with the model; SumGrader calls with scripted samples over sum-preserving and sum-changing rewrites '
         '(swap, rename, shift, reversal, perturbation, off-by-one, scaling around a percentage band) x subsets of input_positions against an exact reference sum; error inputs and input_positions grids against the model.',
-   note=PROOF_NOTE + ' The summand and limit expressions are evaluated by the real evaluator (outside the model); renaming invariance is checked on the implementation, not proved (the model\'s summand is already a function). IntegralGrader (scipy) is not exercised.',
+   note=PROOF_NOTE + ' The summand and limit expressions are evaluated by the real evaluator (outside the model); renaming invariance of the summation variable is proved (sum_rename: substitution lemma over the parse tree, for every operator algebra) and also checked on the implementation. IntegralGrader (scipy) is not exercised.',
    technique='Lean 4 proof (Finset-sum characterisation of the Python range loop, re-indexing lemmas) + exact correspondence + reference-sum oracle', design='§6 C19'),
  'C02': dict(
    text='On top of the call-wrapper theorems of C01 (with debug off only library errors leave __call__; a library error keeps its class with <br/> line breaks; anything else becomes the generic student-facing error naming exactly what was submitted): '
